@@ -116,6 +116,22 @@ def gen_cron(seed: int, n_day_traces: int, n_random: int) -> List[Dict[str, Any]
         calls.append({"e": "cron", "f": f, "o": o, "day": day, "sod": sod, "us": 0, "via_spec": True})
     for i in range(0, len(calls), 1000):
         scns.append({"calls": calls[i:i + 1000], "family": "cron_random", "tz": [None, "JST-9", "EST5EDT"][(i // 1000) % 3]})
+    # one expression at one instant under every offset, back to back in one process: the answer depends on the offset only
+    sweep = []
+    for _ in range(max(40, n_random // 200)):
+        f = rand_expr(rng, wide=False)
+        day = rng.randint(16436, 24100)
+        sod = rng.randint(0, 86399)
+        offs = [{"k": "none"}] + [{"k": "zone", "z": z} for z in range(1, len(cd.ZONES) + 1)] + \
+               [{"k": "delta", "sec": ss} for ss in (-43200, -12600, 3600, 20700, 50400)]
+        rng.shuffle(offs)
+        for o in offs:
+            o2 = {"k": o["k"], "z": o.get("z", 0), "sec": o.get("sec", 0)}
+            if o2["k"] == "zone" and not cd.pytz_agrees(cd.ZONES[o2["z"] - 1], day, sod):
+                continue
+            sweep.append({"e": "cron", "f": f, "o": o2, "day": day, "sod": sod, "us": 0, "via_spec": False})
+    for i in range(0, len(sweep), 1000):
+        scns.append({"calls": sweep[i:i + 1000], "family": "cron_zone_sweep", "tz": None})
     scns[0]["skipped_tz_disagreement"] = skipped
     return scns
 
@@ -155,6 +171,22 @@ def gen_time(seed: int, n_random: int) -> List[Dict[str, Any]]:
                     for tdt in (t0 + _dt.timedelta(minutes=ay), nowdt + _dt.timedelta(seconds=20), nowdt + _dt.timedelta(seconds=45, microseconds=1)):
                         for sp in (["zi", zname], ["pytz", zname]):
                             calls.append({"e": "time", "now": cd.dt_to_inst(nowdt), "T": cd.dt_to_inst(tdt), "spell": sp})
+    # the two instants that share one wall-clock reading in a repeated hour (fold = 0 / fold = 1), evaluated back to back by
+    # the same process at the same `now`, in both orders: one is due within the minute, the other an hour (30 min) later
+    for zname in ("Europe/Berlin", "America/New_York", "Australia/Lord_Howe", "Europe/London"):
+        tab = cd.zone_table(zname)
+        for i in range(1, len(tab)):
+            shift = tab[i - 1]["off"] - tab[i]["off"]
+            if shift <= 0 or i % 3:
+                continue
+            t0 = cd.inst_to_dt(tab[i]["d"], tab[i]["s"], 0)                  # instant of the backward transition
+            for back_min in (10, 25):
+                first = t0 - _dt.timedelta(minutes=back_min)                    # first occurrence of the wall-clock reading
+                second = first + _dt.timedelta(seconds=shift)                   # the same reading, second time round
+                for nowdt in (first - _dt.timedelta(seconds=20), second - _dt.timedelta(seconds=20)):
+                    for pair in ((first, second), (second, first)):
+                        for tdt in pair:
+                            calls.append({"e": "time", "now": cd.dt_to_inst(nowdt), "T": cd.dt_to_inst(tdt), "spell": ["zi", zname]})
     for _ in range(n_random):
         day = rng.randint(16436, 24100)
         now = {"d": day, "s": rng.randint(0, 86399), "u": rng.choice([0, rng.randint(0, 999999)])}
